@@ -63,6 +63,10 @@ fn has_non_finite(m: &Module) -> bool {
     m.functions.iter().any(|(_, f)| f.cards.iter().any(card)) || m.submodules.iter().any(|(_, s)| has_non_finite(s))
 }
 
+fn has_empty_function(m: &Module) -> bool {
+    m.functions.iter().any(|(n, f)| n != "main" && f.cards.is_empty()) || m.submodules.iter().any(|(_, sm)| has_empty_function(sm))
+}
+
 fn viol(what: &str, d: String) -> Verdict {
     Verdict::violation(format!("C11:{what}"), d)
 }
@@ -173,10 +177,28 @@ impl Engine for SerdeEngine {
                 (crate::e_module::gen_module(rng.next_u64(), 2, 3), "all-card-kinds")
             }
         };
+        // degenerate shapes that change what the serialised artefacts contain: functions without cards (a trace entry
+        // with an empty index path), an empty sub-module, a function that is never called
+        let mut module = module;
+        if rng.chance(1, 3) {
+            let f = (format!("empty_fn{}", rng.below(3)), Function { arguments: if rng.chance(1, 2) { vec![] } else { vec!["a".into()] }, cards: vec![] });
+            if rng.chance(1, 2) || module.submodules.is_empty() {
+                let pos = rng.below(module.functions.len() + 1);
+                module.functions.insert(pos, f);
+            } else {
+                module.submodules[0].1.functions.push(f);
+            }
+            if rng.chance(1, 3) {
+                module.submodules.push((format!("empty_mod{}", rng.below(3)), Module::default()));
+            }
+        }
         Case { module, source: source.into(), value_seed: rng.next_u64() }
     }
     fn run(&mut self, case: &Case, obs: &mut Obs) -> Verdict {
         obs.inc(&format!("source:{}", case.source));
+        if has_empty_function(&case.module) {
+            obs.inc("modules_with_an_empty_function");
+        }
         let m = &case.module;
         // ---------- A. source module through JSON and YAML
         let direct = compile(m.clone(), CompileOptions::new());
